@@ -32,7 +32,37 @@ def plan(ctx):
     # lines of one commit made a moment ago (the uncommitted changes, say) that arrive slowly, with delta's default relative
     # times: the same attribution whatever the clock says in between (12 s per case, they run beside the others)
     items += [('slow', i) for i in range(ctx.n(2, 12))]
+    # one instant written in several time zones, delta's default relative times: the same text for all of them
+    items += [('zones', engine.stable_hash((ctx.seed, 'c17z', i))) for i in range(ctx.n(40, 600))]
     return items
+
+
+def run_zones(seed):
+    import time
+    rng = engine.item_rng(seed)
+    age = rng.choice([200 * 60, 3 * 3600 + 1200, 26 * 3600, 40 * 86400, 3 * 365 * 86400]) + rng.randrange(0, 600)
+    instant = time.time() - age
+    zones = rng.sample([('+0000', 0), ('+0900', 9 * 3600), ('-0700', -7 * 3600), ('+0530', 5 * 3600 + 1800), ('-0330', -(3 * 3600 + 1800)), ('+1400', 14 * 3600), ('-1100', -11 * 3600)], 3)
+    lines = []
+    for i, (z, off) in enumerate(zones):
+        stamp = time.strftime('%Y-%m-%d %H:%M:%S', time.gmtime(instant + off)) + ' ' + z
+        lines.append('%08x (Author%d %s %d) code line %d' % (0x1a2b3c00 + i, i, stamp, i + 1, i + 1))
+    args = ['--paging', 'never', '--no-gitconfig', '--syntax-theme', 'none', '--blame-format', '{timestamp:<20}¦{author:<10}¦{commit:<8}']
+    res = runner.run_delta(args, ('\n'.join(lines) + '\n').encode())
+    sets = {'patterns': ['one-instant-in-several-zones'], 'formats': ['default (relative time)'], 'delivery': ['whole'], 'zones': [z for z, _ in zones]}
+    c = crash_outcome(res, ID)
+    if c is not None:
+        return c
+    if res.rc != 0:
+        return inconclusive('exit %d' % res.rc, sets=sets)
+    rws = [r for r in term.decode(res.out.decode('utf-8', 'replace')) if r.text().strip()]
+    times = [r.text().split('¦')[0].strip() for r in rws]
+    if len(times) != 3:
+        return violated('c17:zones:rows', 'three blame lines gave %d rows' % len(times), 3, len(times), run=res, sets=sets)
+    if len(set(times)) != 1:
+        return violated('c17:zones:relative-time-depends-on-zone', 'one instant (%d s ago) written in three time zones is shown with different relative times' % age,
+                        'the same text three times', times, run=res, sets=sets, extra={'input': lines})
+    return held(sig=('zones', tuple(z for z, _ in zones), age // 3600), nontrivial=True, counters={'rows_compared': 3, 'zone_cases': 1}, sets=sets)
 
 
 def run_slow(idx):
@@ -123,6 +153,8 @@ def run_item(item):
     kind, seed = item
     if kind == 'slow':
         return run_slow(seed)
+    if kind == 'zones':
+        return run_zones(seed)
     rng = engine.item_rng(seed)
     if kind == 'real':
         repo = gitrepo.Repo(rng)
